@@ -219,6 +219,49 @@ LibSane ==
   /\ \A k \in 1..NLib : (Lib[k].id \in {14, 15, 16, 19, 29}) => (E!ParseRaw(Lib[k].padb, Len(Lib[k].fids)).ok /\ Len(E!ParseRaw(Lib[k].padb, Len(Lib[k].fids)).exts) > 0)
   /\ \A k \in 1..NLib : Lib[k].id = 17 => ~E!ParseRaw(Lib[k].padb, 1).ok
 
+
+-----------------------------------------------------------------------------
+(* Growth theorems: self-delimited / padded output, padding that adds extensions *)
+XLists(n) == {<<>>,
+              <<[id |-> 5, frame |-> 0, data |-> <<7>>]>>,
+              <<[id |-> 40, frame |-> n - 1, data |-> Rep(255, 9)]>>,
+              [i \in 1..Min(n, 3) |-> [id |-> 33, frame |-> i - 1, data |-> <<i, i>>]]}     \* repeat-eligible
+OutSdPad ==
+  \A p \in Pairs(N) : RangeOK(rp, p[1], p[2]) =>
+    \A sd \in BOOLEAN :
+      LET b == p[1]  e == p[2]
+          m0 == OutModelX(rp, b, e, sd, 0, <<>>) IN
+      /\ m0.ok
+      /\ (~sd => (m0.len = OutModel(rp, b, e).len /\ m0.hdr = OutModel(rp, b, e).hdr))
+      /\ \A d \in {0, 1, 255, 256} :
+           LET o == OutModelX(rp, b, e, sd, m0.len + d, <<>>)
+               q == Parse(o, sd) IN
+           \* with nothing carried every length >= the minimal one is reachable; otherwise all but +0 may need the 0x01 fill
+           /\ (Carried(rp, b, e) = <<>> => o.ok)
+           /\ o.ok => /\ o.len = m0.len + d
+                      /\ q.ok /\ q.consumed = o.len
+                      /\ q.sizes = SizesOf(Sel(rp, b, e)) /\ q.toc \div 4 = rp.cfg
+                      /\ q.pad = Len(o.padb)
+                      /\ E!ParseRaw(o.padb, e - b).ok
+                      /\ E!ExtContents(o.padb, e - b) = Carried(rp, b, e)
+PadWithExtThm ==
+  \A k \in 1..NLib :
+    LET pk == Lib[k]  r == Parse(pk, FALSE) IN
+    r.ok => \A list \in XLists(r.count), pad \in BOOLEAN :
+      LET all == PkExts(pk, r.count) \o list
+          up  == ExtUpper(r.toc \div 4, r.sizes, FALSE, all) IN
+      /\ \A n \in {pk.len + 1, pk.len + 40, up, up + 300} :
+           LET o == PadWithExt(pk, n, pad, list) IN
+           /\ (n >= up /\ n > pk.len => o.ok)                      \* refused only when new_len is too small
+           /\ o.ok => /\ (pad => o.len = n) /\ o.len <= n
+                      /\ (all # <<>> => o.len >= ExtLower(r.toc \div 4, r.sizes, FALSE, all))
+                      /\ SameFrames(pk, FALSE, o, FALSE)
+                      /\ E!ParseRaw(o.padb, r.count).ok
+                      /\ E!ExtContents(o.padb, r.count) = E!StableSortByFrame(all, r.count)
+                      /\ \A f \in 0..(r.count - 1) : FrameExtsOK(E!ExtContents(o.padb, r.count), PkExts(pk, r.count), list, f)
+      \* an extension for a frame the packet does not have is refused
+      /\ ~PadWithExt(pk, pk.len + 100, pad, <<[id |-> 5, frame |-> r.count, data |-> <<>>]>>).ok
+
 -----------------------------------------------------------------------------
 (* behaviour generation: for every history (sequence of init / cat) the      *)
 (* probes to run in the state it reaches.                                    *)
